@@ -1,0 +1,16 @@
+//go:build verif
+
+// Contracts for the verification machinery in /verif (govc). Comment-only.
+
+package iterator
+
+// C02: the storage error is recorded before the end of the result stream becomes visible
+//@ func (*Iterator).Finish
+//@   requires it != nil && it.doneClosed != nil
+//@   nopanic off
+//@   modifies *
+//@   ghost var stored bool = false
+//@   at store err assert value == err
+//@   at store err ghost stored = true
+//@   at close Next assert chan == it.Next && stored
+//@   at close Done assert chan == it.Done
